@@ -1552,13 +1552,8 @@ func (b *Bitmap) ImportRoaringBits(data []byte, clear bool, log bool, rowSize ui
 	// Walk the whole input once before touching b, so that a container that
 	// is out of bounds or of an unknown type rejects the import as a whole
 	// instead of leaving the containers before it applied and unlogged.
-	for itrKey, itrCType, itrN, itrLen, itrPointer, itrErr = itr.Next(); itrErr == nil; itrKey, itrCType, itrN, itrLen, itrPointer, itrErr = itr.Next() {
-		if err := validateImportContainer(itrCType, itrN, itrLen, itrPointer); err != nil {
-			return 0, nil, fmt.Errorf("container key %d: %v", itrKey, err)
-		}
-	}
-	if itrErr != io.EOF {
-		return 0, nil, itrErr
+	if err := validateImport(itr); err != nil {
+		return 0, nil, err
 	}
 	if itr, err = newRoaringIterator(data); err != nil {
 		return 0, nil, err
@@ -1644,6 +1639,31 @@ func (b *Bitmap) ImportRoaringBits(data []byte, clear bool, log bool, rowSize ui
 	}
 	return changed, rowSet, err
 
+}
+
+// ValidateImport reports whether data would be accepted by
+// ImportRoaringBits, without changing anything. A caller that applies
+// several payloads as one request can check all of them first.
+func ValidateImport(data []byte) error {
+	itr, err := newRoaringIterator(data)
+	if err != nil {
+		return err
+	}
+	return validateImport(itr)
+}
+
+// validateImport walks itr to its end and checks every container.
+func validateImport(itr roaringIterator) error {
+	key, cType, n, length, pointer, err := itr.Next()
+	for ; err == nil; key, cType, n, length, pointer, err = itr.Next() {
+		if err := validateImportContainer(cType, n, length, pointer); err != nil {
+			return fmt.Errorf("container key %d: %v", key, err)
+		}
+	}
+	if err != io.EOF {
+		return err
+	}
+	return nil
 }
 
 // validateImportContainer checks that the container data yielded by a
